@@ -1033,7 +1033,11 @@ class MySQLParser(SQLParser):
 
     @_('INTEGER')
     def integer(self, p):
-        return int(p[0])
+        try:
+            return int(p[0])
+        except ValueError:
+            # int() refuses digit strings longer than sys.get_int_max_str_digits()
+            raise ParsingException(f'Integer literal is too long ({len(p[0])} digits): {p[0][:20]}...')
 
     @_('QUOTE_STRING')
     def quote_string(self, p):
